@@ -29,6 +29,8 @@ pub struct Layout {
     pub tok_base: Vec<u64>,
     pub short_l1: bool,
     pub extra_ext: bool,
+    /// the backing file name ends exactly at the end of the first cluster (still inside it)
+    pub name_at_end: bool,
 }
 
 pub struct Built {
@@ -117,6 +119,8 @@ pub fn gen_layout(rng: &mut Rng, with_backing: bool, allow_compressed: bool) -> 
         tok_base,
         short_l1: rng.chance(1, 2),
         extra_ext: rng.chance(1, 2),
+        // derived, not drawn: keeps the random stream of older seeds unchanged
+        name_at_end: with_backing && (size >> cb) % 4 == 1,
     }
 }
 
@@ -340,7 +344,7 @@ pub fn build(l: &Layout, rng: &mut Rng) -> Built {
     exts.extend(crate::hdr::ext_bytes(0, &[]));
     img[ext_off..ext_off + exts.len()].copy_from_slice(&exts);
     if let Some(name) = &l.backing_name {
-        let off = ext_off + exts.len();
+        let off = if l.name_at_end { cs - name.len() } else { ext_off + exts.len() };
         img[off..off + name.len()].copy_from_slice(name.as_bytes());
         put64(&mut img, 8, off as u64);
         put32(&mut img, 16, name.len() as u32);
